@@ -67,7 +67,8 @@ POL_RULE = ("Policy lab under synctest: (3) cache.GetWithExpiration operation se
             "clock advances landing exactly on / 1 ns after pending expiries; (4) the real publicip.GetPublicIP over a scripted http.RoundTripper (1..5 providers, per-attempt "
             "scripts: status classes 2xx/3xx/4xx/5xx x valid/invalid body, transport error, body-read error, hang, answers slower than the per-provider deadline; backoff randomisation off); "
             "(5) reversedns.GetReverseDnsForIPs against a resolver that answers after a delay or never; "
-            "(19) the real sackDriver.ReadHandshake with frames arriving over time: silence, a trickle of packets it must skip (other connections' SYN-ACKs, ICMP, plain ACKs, garbage) at intervals below the read timeout for up to 4 s, the genuine SYN-ACK early / after the deadline / never, no-SACK-permitted, bursts: outcome and elapsed virtual time.")
+            "(19) the real sackDriver.ReadHandshake with frames arriving over time: silence, a trickle of packets it must skip (other connections' SYN-ACKs, ICMP, plain ACKs, garbage) at intervals below the read timeout for up to 4 s, the genuine SYN-ACK early / after the deadline / never, no-SACK-permitted, bursts: outcome and elapsed virtual time; "
+            "(21) the real RunTraceroute with scripted per-query durations (0..3 runs, 0..12 end-to-end probes, one run failing), a resolver that answers after a delay / after the 5 s deadline / never and a public-IP fetcher with a scripted duration: elapsed virtual time of the whole request.")
 PROPS["C18"] = dict(num=18, labs=["doc", "pol"], rule=DOC_RULE + " " + POL_RULE,
     nontrivial="a request with at least one run (doc lab) / any policy-lab case", trivial_classes=[0, 4, 8, 12, 32, 36, 40, 44, 64, 68, 72, 76, 96, 100, 104, 108],
     signatures={"18": "names attached to a hop/destination differ from the resolver's answer for that address", "18.2": "cache served a value no earlier successful callback produced, cached a failure, or mis-reported the callback",
@@ -77,9 +78,9 @@ PROPS["C18"] = dict(num=18, labs=["doc", "pol"], rule=DOC_RULE + " " + POL_RULE,
 PROPS["C08"] = dict(num=8, labs=["eng", "pol"], rule=ENG_RULE + " One case in five cancels the caller's context at an arbitrary virtual instant. " + POL_RULE,
     nontrivial="any case other than an empty script without cancellation", trivial_classes=[0, 1],
     signatures={"8": "engine run exceeded its computable bound", "8.1": "cancelled run did not return the cancellation error within poll + delay", "8.2": "public-IP lookup exceeded providers x per-checker timeout",
-                "8.3": "reverse-DNS lookup exceeded its timeout / SACK handshake read outlived its 500 ms deadline", "9": "a valid scripted run returned an error", "10": "engine panicked", "3.1": "out-of-range reply produced a path"},
+                "8.3": "reverse-DNS lookup exceeded its timeout / SACK handshake read outlived its 500 ms deadline", "8.4": "a whole request took longer than the bound computed from its parameters and the longest run / probe / lookup", "9": "a valid scripted run returned an error", "10": "engine panicked", "3.1": "out-of-range reply produced a path"},
     trusted_base=ENG_TRUSTED + ["scripted http.RoundTripper honours the request's context exactly like net/http's transport would (oracle: HTTP client and resolver return by the deadline of the context they are given)"],
-    assumptions=["net.Dialer returns by the deadline of the context it is given (oracle for the SACK dial); RunTraceroute-level composition of the per-run bounds is not covered by this check (partial)"])
+    assumptions=["net.Dialer returns by the deadline of the context it is given (oracle for the SACK dial); the request-level model takes the durations of the runs, probes and public-IP lookup as inputs (each is bounded by its own theorem)"])
 
 DRV_RULE = ("Driver lab: the real ICMP (v4, v6), UDP (v4, v6; strict, relaxed), TCP SYN (default, Paris; strict, relaxed) and SACK (strict, relaxed) drivers over the simulated wire under synctest, "
             "one case per SendProbe / ReceiveProbe / ReadHandshake. Echo-id, IP-ID base, sequence number and ISN at and around wrap-around; TTL ranges incl. 1..1, 250..255, 255..255 and a sweep of all 255 TTLs per variant. "
